@@ -1,10 +1,10 @@
 SPECIFICATION Spec
 CONSTANTS
-  LL = 2
-  MGens <- MGensTiny
-  OGens <- OGensTiny
+  LL = 3
+  MGens <- MGensQuick
+  OGens <- OGensQuick
   Scalars <- ScalarsQuick
-  MaxDepth = 2
+  MaxDepth = 1
   MaxBond = 4
   OutFree = FALSE
   Mutant <- NoMutant
